@@ -126,6 +126,37 @@ def buf_layout(v, depth=0):
     return out
 
 
+def _record_fields(v):
+    """(name, value) of a record value: an aggregate, or a loop-carried record updated in place (`upd` chain)"""
+    if is_agg(v):
+        return list(v[4])
+    seen, out = set(), []
+    while isinstance(v, tuple) and v and v[0] == "upd" and v[2][0] == "f":
+        if v[2][1] not in seen:
+            seen.add(v[2][1])
+            out.append((v[2][1], v[3]))
+        v = v[1]
+    if is_agg(v):
+        out += [(n, x) for n, x in v[4] if n not in seen]
+    return out
+
+
+def _acc_parts(a):
+    """(loop variable, field path) of the length accumulator: a loop-carried u64, or a field of a loop-carried record"""
+    path = ()
+    while isinstance(a, tuple) and a and a[0] == "field":
+        path = (("f", a[2]),) + path
+        a = a[1]
+    if isinstance(a, tuple) and a and a[0] == "loopvar" and len(path) <= 1:
+        return a, path
+    return None
+
+
+def _same_acc(t, acc):
+    x, y = _acc_parts(t), _acc_parts(acc)
+    return x is not None and y is not None and x[1] == y[1] and x[0][1:4] == y[0][1:4]
+
+
 def length_sum(ctx, rule):
     R = prepare_rows(ctx)
     fn, outs = R["fn"], R["outs"]
@@ -140,8 +171,8 @@ def length_sum(ctx, rule):
         tup = agg_get(o.value, "0")
         # the pieces by what they are, not by position: a tuple (builder, part headers, total) or a private record of them
         total = bld = None
-        if is_agg(tup):
-            for _n, x_ in tup[4]:
+        if is_agg(tup) or (isinstance(tup, tuple) and tup and tup[0] == "upd"):
+            for _n, x_ in _record_fields(tup):
                 if isinstance(x_, tuple) and x_ and (x_[0] == "builder" or (x_[0] == "call" and x_[1].startswith("http::response::Builder::"))):
                     bld = x_
                 elif isinstance(x_, tuple) and x_ and (TY.get(x_, (0,))[0] == 64 or (x_[0] == "binop" and x_[1] == "Add")):
@@ -149,7 +180,7 @@ def length_sum(ctx, rule):
         ok = False
         if isinstance(total, tuple) and total[0] == "binop" and total[1] == "Add":
             a, b = total[2], total[3]
-            if isinstance(a, tuple) and a[0] == "loopvar" and is_const(b):
+            if _acc_parts(a) and is_const(b):
                 acc_lv, trailer_len, ok = a, b[1], True
         if not ok:
             ctx.violation(rule, rule + "|total-shape", "UNRECOGNISED: returned multipart length %s is not <accumulator> + len(<trailer literal>)" % short(total, 100))
@@ -184,8 +215,7 @@ def length_sum(ctx, rule):
                 fv_ = SM.fmt_value(cls_[0][1]) if len(cls_) == 1 else {"kind": "none"}
                 args_ = SM.fmt_arg_values(fv_) if fv_["kind"] == "fmt" else []
                 okcl = len(args_) == 1 and SM.template_text(fv_.get("template")) == "{}" and isinstance(args_[0][2], tuple) and \
-                    args_[0][2][0] == "binop" and args_[0][2][1] == "Add" and isinstance(args_[0][2][2], tuple) and args_[0][2][2][0] == "loopvar" and \
-                    args_[0][2][2][1:4] == acc_lv[1:4] and args_[0][2][3] == const(trailer_len)
+                    args_[0][2][0] == "binop" and args_[0][2][1] == "Add" and _same_acc(args_[0][2][2], acc_lv) and args_[0][2][3] == const(trailer_len)
                 if not okcl:
                     ctx.violation(rule, rule + "|cl-not-total", "multipart Content-Length announced by the caller is %s, not the body length the preparation computed" %
                                   (short(args_[0][2], 60) if args_ else fv_["kind"]), where=SM.row_where(r_))
@@ -206,8 +236,9 @@ def length_sum(ctx, rule):
             else:
                 ctx.ok(rule, "Content-Length == returned total == acc + len(trailer)", detail={"trailer_len": trailer_len})
     # loop rows of the ranges loop
-    key = acc_lv[3]
-    header = acc_lv[2]
+    acc_var, acc_path = _acc_parts(acc_lv)
+    key = acc_var[3]
+    header = acc_var[2]
     entry = None
     nloop = 0
     for o in outs:
@@ -215,10 +246,12 @@ def length_sum(ctx, rule):
         ev0 = lev.get((fn, header, key))
         if ev0 is not None:
             entry = ev0
+            for e_ in acc_path:
+                entry = agg_get(entry, e_[1]) if is_agg(entry) else None
         if o.kind == "backedge" and o.where == (fn, header):
             nloop += 1
             root = ("L", 0, key[1])
-            newacc = final_read(ctx, o, root, key[2])
+            newacc = final_read(ctx, o, root, tuple(key[2]) + acc_path)
             pushes = [e for e in o.events if e["k"] == "call" and method_name(e["callee"]) == "push" and "Vec<u8>" in (e["callee"].get("res_full") or e["callee"].get("full") or "")]
             if len(pushes) != 1:
                 ctx.violation(rule, rule + "|push-count", "a loop iteration pushes %d part headers (expected exactly one)" % len(pushes))
